@@ -32,7 +32,12 @@ def generate(rng, tier, seed):
                     c = Case(f"{ver}:{alg}:group", {"mask": mask, "layout": li})
                     c.key = (ver, alg, mask, li)
                     lengths = collections.defaultdict(set)
-                    for kl in keylens:
+                    order = list(keylens)
+                    if (li + (mask or 0) + ord(alg)) % 3 == 1:
+                        order.reverse()
+                    elif (li + (mask or 0) + ord(alg)) % 3 == 2:
+                        rng.shuffle(order)
+                    for kl in order:
                         h = make_header(rng, ver, layout, alg=alg, reserved="00")
                         key = rb(rng, kl)
                         if (kl + (mask or 0)) % 7 == 0:
